@@ -50,6 +50,8 @@ Record s3w := mkS3W { sw_k : str; sw_v : str; sw_vaddr : N; sw_kaddr : N; sw_mem
 
 Definition s3_one (w : s3w) (kv : str * value) : s3w :=
   let '(key, v) := kv in
+  (* fix: a removed key is left out of the rewritten objects *)
+  if vstate_eqb (v_st v) VDeleted then w else
   let vrec := le_bytes 8 (slen (v_val v)) +++ v_val v +++ le_bytes 4 (status_code (v_st v)) in
   let krec := le_bytes 8 (slen key) +++ key +++ i32_bytes (v_ver v) +++ le_bytes 8 (sw_vaddr w) in
   mkS3W (sw_k w +++ krec) (sw_v w +++ vrec)
@@ -61,7 +63,8 @@ Definition s3_one (w : s3w) (kv : str * value) : s3w :=
 (* S3Storage::storage_data_on_cloud: the two PUT results are ignored *)
 Definition s3_snapshot (d : db) (dbn : str) (order : list str) (reclaim : bool) (s : stub) (clock : N)
   : stub * list (str * value) * N :=
-  let w := fold_left s3_one (keys_to_update (d_map d) order reclaim) (mkS3W "" "" 0 0 (d_map d) clock) in
+  (* fix: every key is written at each snapshot, whatever [reclaim] says *)
+  let w := fold_left s3_one (keys_to_update (d_map d) order true) (mkS3W "" "" 0 0 (d_map d) clock) in
   let '(s1, _) := stub_put s (prefix_name +++ "/" +++ dbn +++ "/nun.keys") (sw_k w) in
   let '(s2, _) := stub_put s1 (prefix_name +++ "/" +++ dbn +++ "/nun.values") (sw_v w) in
   (s2, sw_mem w, sw_clock w).
@@ -130,6 +133,8 @@ Record pw := mkPW { pw_buf : str; pw_mem : list (str * value); pw_clock : N }.
 
 Definition part_one (p : N) (w : pw) (kv : str * value) : pw :=
   let '(key, v) := kv in
+  (* fix: a removed key is left out of the rewritten partition *)
+  if vstate_eqb (v_st v) VDeleted then w else
   let rec := le_bytes 8 (slen key) +++ key +++ le_bytes 8 (slen (v_val v)) +++ v_val v +++
              le_bytes 4 (status_code VOk) +++ i32_bytes (v_ver v) in
   mkPW (pw_buf w +++ rec)
